@@ -505,4 +505,31 @@ def rule_f(ctx):
     return r
 
 
-RULES = [rule_a, rule_b, rule_c, rule_d, rule_e, rule_f]
+
+def rule_g(ctx):
+    r = RuleResult("C18-g", "comments in front of a file's @use/@forward rules are insignificant: the scan that records the leading @use/@forward rules skips variable "
+                   "declarations, loud comments and silent comments alike")
+    prog = ctx.prog()
+    b = prog.one("parse::stylesheet::StylesheetParser::__parse")
+    found = None
+    for sw, ap, adt, variants, rv in common.discr_switches(b):
+        if (adt or "").endswith("ast::stmt::AstStmt"):
+            t = b.term(sw)
+            arms = {variants.get(v): tb for v, tb in t["ts"]}
+            if "Use" in arms and "Forward" in arms:
+                found = (sw, arms, t["else"])
+    if found is None:
+        raise AnchorMissing("__parse: the scan over the leading statements (match on AstStmt with Use/Forward arms) was not found")
+    sw, arms, els = found
+    skip_target = arms.get("VariableDecl")
+    skipped = sorted(k for k, tb in arms.items() if tb == skip_target and skip_target is not None and tb != els)
+    key = "__parse|leading-statements-skipped"
+    if {"VariableDecl", "LoudComment", "SilentComment"} <= set(skipped):
+        r.ok(key, skipped=skipped)
+    else:
+        r.violate(key, "the scan for leading @use/@forward rules skips only %s: a `//` or `/* */` comment (or a variable) in front of `@forward` makes an @import of that file "
+                  "ignore the forwarded members" % skipped, b.loc())
+    return r
+
+
+RULES = [rule_a, rule_b, rule_c, rule_d, rule_e, rule_f, rule_g]
